@@ -457,7 +457,8 @@ pub fn gen_valid(r: &mut Rng, max_out: usize) -> SynthSpec {
         fcs_value: None,
         window_desc,
         checksum: r.chance(1, 2),
-        dict_id: None,
+        // an explicit Dictionary_ID field holding 0 is valid and means "no dictionary": 1, 2 or 4 more header bytes
+        dict_id: if r.chance(1, 5) { Some((0, *r.pick(&[1u8, 2, 4]))) } else { None },
     };
     let nblocks = r.urange(1, 8);
     let mut blocks = Vec::new();
